@@ -954,6 +954,47 @@ func runC12(res *hx.Result, rng *hx.Rng, tier string, outdir string) {
 		}
 		compared(frames, nconn, "generated", tags...)
 	}
+	if tier == "thorough" {
+		// all pairs of generic-object requests with conflicting arguments, sent by one client or by two
+		res.Exhaustive = true
+		alpha := []struct {
+			act    uint32
+			oid    uint32
+			sig    uint32
+			uid    uint64
+			broken bool
+		}{
+			{0, 1, 200, 7, false}, {0, 1, 201, 7, false}, {0, 1, 200, 8, false}, {0, 77, 200, 7, false}, {0, 1, 200, 7, true},
+			{1, 1, 200, 7, false}, {1, 1, 200, 8, false}, {1, 1, 200, 7, true},
+			{3, 1, 0, 0, false}, {3, 77, 0, 0, false}, {2, 1, 0, 0, false}, {2, 77, 0, 0, false},
+		}
+		mk := func(i int, conn int, id uint32) c12frame {
+			a := alpha[i]
+			f := c12frame{conn: conn, typ: net.Call, svc: 2, obj: 1, act: a.act, id: id}
+			switch a.act {
+			case 0, 1:
+				f.payload, f.cls = c12args(a.oid, a.sig, a.uid), c12pack(a.oid, a.sig, a.uid)
+			default:
+				f.payload, f.cls = c12le32(a.oid), c12pack(a.oid, 0, 0)
+			}
+			if a.broken {
+				f.payload, f.cls = f.payload[:3], c12PBad
+			}
+			return f
+		}
+		for i := range alpha {
+			for j := range alpha {
+				for second := 0; second < 2; second++ {
+					tags := []string{}
+					if alpha[i].act == 0 && alpha[j].act == 0 && !alpha[i].broken && !alpha[j].broken &&
+						alpha[i].oid == 1 && alpha[j].oid == 1 && alpha[i].uid == alpha[j].uid {
+						tags = append(tags, "dup_relock")
+					}
+					compared([]c12frame{mk(i, 0, 11), mk(j, second, 13), mk(10, 0, 15)}, 1+second, "exhaustive-pairs", tags...)
+				}
+			}
+		}
+	}
 	cf.Flush()
 
 	// ---- oracle-only scripts ----
